@@ -23,6 +23,7 @@ func (w *World) Close() {
 
 type WorldOpts struct {
 	Jumbo     bool // one >2049-document base segment (doc-value chunks, adaptive chunking)
+	JumboN    int  // with Jumbo: exact size of the first base segment, built in the default (adaptive) chunk mode
 	MaxDocs   int  // cap for base batch sizes (0 = BatchSize default)
 	MinDocs   int
 	FixedMode uint32 // 0 = draw per segment
@@ -44,10 +45,15 @@ func GenWorld(r *rand.Rand, tmp string, prefix string, o WorldOpts) (*World, err
 		var s *Seg
 		var err error
 		if o.Jumbo && i == 0 {
-			docs, sch := JumboBatch(r, JumboSize(r, 2100, 1200), fmt.Sprintf("%s.j%d", prefix, i), tagDV)
+			jn := JumboSize(r, 2100, 1200)
+			modes := []uint32{1025, 1024, 100}
+			if o.JumboN > 0 {
+				jn, modes = o.JumboN, []uint32{1025}
+			}
+			docs, sch := JumboBatch(r, jn, fmt.Sprintf("%s.j%d", prefix, i), tagDV)
 			AddExactTerms(r, docs, "exact", ExactSpec(len(docs)))
 			w.Schema = sch
-			s, err = BuildSeg(docs, []uint32{1025, 1024, 100}[r.Intn(3)])
+			s, err = BuildSeg(docs, modes[r.Intn(len(modes))])
 		} else if o.Jumbo {
 			docs, _ := JumboBatch(r, JumboSize(r, 300, 900), fmt.Sprintf("%s.j%d", prefix, i), tagDV)
 			AddExactTerms(r, docs, "exact", ExactSpec(len(docs)))
